@@ -4,10 +4,11 @@ import glob, json, os
 V = os.path.dirname(os.path.abspath(__file__))
 props = [json.loads(l) for l in open(os.path.join(V, "properties.jsonl"))]
 checks, na = [], []
+claimed = set(json.load(open(os.path.join(V, "claimed.json"))))  # ids whose check has been reviewed and is claimed
 for p in props:
     pid = p["id"]
     f = os.path.join(V, "checks", pid + ".json")
-    if not os.path.exists(f):
+    if not os.path.exists(f) or pid not in claimed:
         na.append({"property_id": pid, "reason": "check not built yet (work in progress); see DESIGN.md section 3 for the planned check"})
         continue
     r = json.load(open(f))
